@@ -100,6 +100,15 @@ func choiceCost(p *Point, k int) (int, int) {
 		}
 		return 0, 0 // only the environment can move
 	}
+	if c.Kind == OpSleep {
+		// letting a sleeper continue while another thread could run is a deviation (time running fast)
+		for _, e := range p.Enabled {
+			if e.Thread >= 0 && e.Thread != c.Thread && e.Kind != OpSleep && e.Kind != OpIdle {
+				return 0, 1
+			}
+		}
+		return 0, 0
+	}
 	if p.RunningEnabled && c.Thread != p.Running {
 		return 1, 0
 	}
